@@ -35,7 +35,7 @@ DELIVERABLES, written into /tmp/wt/{name}/_out/ :
   - demo.bn (a Borno program; keywords must be spelled exactly as in lexer/scanner.go, copy them from there) plus expected.txt (the stdout+exit status the ORIGINAL code produces) and, if stdin is needed, stdin.txt;  OR  demo_test.go (a Go test to drop into one package directory; say which one) -- a demonstration that FAILS/differs with your change and PASSES/matches without it. If the demonstration is not a plain `borno demo.bn [< stdin.txt]` run (e.g. it needs the REPL, special arguments or a missing file), also provide demo.sh taking the path of the built binary as $1 and printing everything observable (stdout, stderr, exit status).
   - notes.md : which part of the property is broken, what is needed for it to manifest, and the exact commands you ran (including the output showing the demo passing on the original code and failing on the changed code, and the full test suite passing on the changed code).
 How to run a Borno program: cd /tmp/wt/{name} && env -u GOFLAGS GOPROXY=off go run . path/to/file.bn   (the file must end in .bn; `go run . ` with no argument starts the REPL reading stdin). Look at example/*.bn and README.md for the language.
-To check against the original code use `git -C /tmp/wt/{name} stash` / `stash pop`, or a second copy under /tmp.
+To check against the original code make a second copy: `mkdir /tmp/orig_{name} && git -C /tmp/wt/{name} archive HEAD | tar -x -C /tmp/orig_{name}` (do NOT use git stash: the stash is shared between worktrees and other people are working in sibling worktrees).
 When you are done, reply with a short summary (what you changed, why tests do not catch it, what the demo shows).
 """
 open(f'/tmp/wt/prompt_{name}.txt','w').write(t)
